@@ -207,6 +207,13 @@ func configEngine(args []string) error {
 	for i := 0; i < c.n; i++ {
 		f := filepath.Join(dir, fmt.Sprintf("c%d.conf", i))
 		a := genArgs()
+		if i%2 == 1 {
+			// history: the file already holds a (much) longer configuration; the save under test must replace it
+			long := "/tmp/" + strings.Repeat("very-long-control-socket-directory-name/", 12) + "nextdns.sock"
+			if _, ok := runCfgChild("save", append(append([]string{"-config-file", f}, a...), "-control", long)); ok {
+				a = append(a, "-control", "/tmp/n.sock")
+			}
+		}
 		e1, ok1 := runCfgChild("save", append([]string{"-config-file", f}, a...))
 		if !ok1 {
 			continue // not accepted from the command line: outside the property
